@@ -4,7 +4,7 @@ from contracts import c13, stubs, enc
 LEVEL = "other"
 TRUSTED = [stubs.A_SOLVER]
 ASSUMPTIONS = [stubs.A_SOLVER, "A4 (not proved): a generating multiset with at most len(numbers)+1 (+ partition cut points) elements exists whenever one exists"]
-EXPLANATION = ("Proved (PyVC, unbounded): the ENCODER MinGenSet._create_solver (no partition constraints; max_multiplicity 1 and >= 2; int and float): every admitted assignment IS a generating set of size k - the k elements lie in [0,total] and sum to total, every number is a sum of (multiplicity x element) with integer multiplicities in [0,max_multiplicity], the product columns' bound cuts off nothing - and nothing else is excluded except by sorting the first k-1 elements (_encode_symmetry_breaking, own unit). Proved (PyVC, unbounded): MinGenSet.solve searches every size from the lower bound to len(numbers)+1, accepts only a proven optimum, never skips an inconclusive size; "
+EXPLANATION = ("Proved (PyVC, unbounded): the ENCODER MinSetCover._encode_set_cover - one 0/1 column per subset; every admitted assignment is a choice of subsets in which every universe element lies in a chosen subset (and every such choice is admitted: auxiliary clause); the objective handed to the solver is the total weight of the chosen subsets, minimised; the ENCODER MinGenSet._create_solver (no partition constraints; max_multiplicity 1 and >= 2; int and float): every admitted assignment IS a generating set of size k - the k elements lie in [0,total] and sum to total, every number is a sum of (multiplicity x element) with integer multiplicities in [0,max_multiplicity], the product columns' bound cuts off nothing - and nothing else is excluded except by sorting the first k-1 elements (_encode_symmetry_breaking, own unit). Proved (PyVC, unbounded): MinGenSet.solve searches every size from the lower bound to len(numbers)+1, accepts only a proven optimum, never skips an inconclusive size; "
                "MinSetCover.solve/get_solution status clauses (C13). NOT proved: that the MILP rows express 'generating multiset' / 'cover' (product helpers are exact: C12). "
                "Bounded: both classes vs plain enumeration on small instances (rc/p_C15.py).")
 
@@ -22,7 +22,7 @@ def bounded(tier, seed):
 
 MANIFEST = dict(
     category="other",
-    text='Contract-based proofs on the real source: the MinGenSet ENCODER (_create_solver: every admitted assignment is a generating set of size k; symmetry breaking), the search-range and status clauses of MinGenSet.solve / MinSetCover.solve, plus a bounded stand-in: results compared with plain enumeration (numbers from 1..9, <=4 numbers, multiplicities <=2, both weight types, lower bounds, partition constraints; set covers with universes <=5).',
+    text='Contract-based proofs on the real source: the MinSetCover ENCODER (covering rows + weighted objective, for arbitrary universes, subset families and weights), the MinGenSet ENCODER (_create_solver: every admitted assignment is a generating set of size k; symmetry breaking), the search-range and status clauses of MinGenSet.solve / MinSetCover.solve, plus a bounded stand-in: results compared with plain enumeration (numbers from 1..9, <=4 numbers, multiplicities <=2, both weight types, lower bounds, partition constraints; set covers with universes <=5).',
     design_ref="DESIGN.md section 3 / C15",
     note='Optimality itself and the partition-constraint rows are decided only by the bounded comparison. Trusted: HiGHS, enumeration oracle.',
     technique='contract-based deductive verification of the encoder and the search loop (PyVC) + bounded runtime-contract check vs enumeration',
